@@ -1,6 +1,59 @@
-//! engine `ffi` (stub — to be written)
+//! engine `ffi` (C13) — under construction; `bvh ffi probe` confirms D10/D11
 use crate::util::*;
+use brotli::ffi::compressor as c;
+use brotli::enc::encode::BrotliEncoderParameter as P;
+
+pub fn probe() {
+    unsafe {
+        // ---- D10: total_out reset on a call that delivers nothing
+        let st = c::BrotliEncoderCreateInstance(None, None, core::ptr::null_mut());
+        c::BrotliEncoderSetParameter(st, P::BROTLI_PARAM_QUALITY, 5);
+        c::BrotliEncoderSetParameter(st, P::BROTLI_PARAM_LGWIN, 18);
+        let data: Vec<u8> = (0..5000u32).map(|i| (i.wrapping_mul(2654435761) >> 13) as u8).collect();
+        let mut out = vec![0u8; 1 << 16];
+        let mut delivered = 0usize;
+        let mut ip = data.as_ptr(); let mut ai = data.len();
+        let mut op = out.as_mut_ptr(); let mut ao = out.len();
+        let mut total: usize = 777;
+        let r = c::BrotliEncoderCompressStream(st, c::BrotliEncoderOperation::BROTLI_OPERATION_FLUSH, &mut ai, &mut ip, &mut ao, &mut op, &mut total);
+        delivered = out.len() - ao;
+        println!("D10 call1 FLUSH 5000 bytes: ret={} delivered={} total_out={}", r, delivered, total);
+        // a call that delivers nothing: PROCESS with 10 bytes of input
+        let more = [1u8; 10];
+        let mut ip2 = more.as_ptr(); let mut ai2 = more.len();
+        let r = c::BrotliEncoderCompressStream(st, c::BrotliEncoderOperation::BROTLI_OPERATION_PROCESS, &mut ai2, &mut ip2, &mut ao, &mut op, &mut total);
+        println!("D10 call2 PROCESS 10 bytes: ret={} delivered so far={} total_out={}   (expected total_out == delivered)", r, out.len() - ao, total);
+        let mut ai3 = 0usize; let mut ip3: *const u8 = core::ptr::null();
+        let r = c::BrotliEncoderCompressStream(st, c::BrotliEncoderOperation::BROTLI_OPERATION_FINISH, &mut ai3, &mut ip3, &mut ao, &mut op, &mut total);
+        println!("D10 call3 FINISH: ret={} delivered so far={} total_out={}", r, out.len() - ao, total);
+        let r = c::BrotliEncoderCompressStream(st, c::BrotliEncoderOperation::BROTLI_OPERATION_FINISH, &mut ai3, &mut ip3, &mut ao, &mut op, &mut total);
+        println!("D10 call4 FINISH again (nothing left): ret={} delivered so far={} total_out={}", r, out.len() - ao, total);
+        c::BrotliEncoderDestroyInstance(st);
+
+        // ---- D11: metadata payload bytes not counted
+        let st = c::BrotliEncoderCreateInstance(None, None, core::ptr::null_mut());
+        c::BrotliEncoderSetParameter(st, P::BROTLI_PARAM_QUALITY, 5);
+        let meta = [0xabu8; 100];
+        let mut ip = meta.as_ptr(); let mut ai = meta.len();
+        let mut op = out.as_mut_ptr(); let mut ao = out.len();
+        let mut total: usize = 777;
+        let r = c::BrotliEncoderCompressStream(st, c::BrotliEncoderOperation::BROTLI_OPERATION_EMIT_METADATA, &mut ai, &mut ip, &mut ao, &mut op, &mut total);
+        println!("D11 EMIT_METADATA 100 bytes: ret={} avail_in={} delivered={} total_out={}", r, ai, out.len() - ao, total);
+        let mut ai3 = 0usize; let mut ip3: *const u8 = core::ptr::null();
+        let r = c::BrotliEncoderCompressStream(st, c::BrotliEncoderOperation::BROTLI_OPERATION_FINISH, &mut ai3, &mut ip3, &mut ao, &mut op, &mut total);
+        println!("D11 FINISH: ret={} delivered so far={} total_out={}  (expected equal)", r, out.len() - ao, total);
+        c::BrotliEncoderDestroyInstance(st);
+        // same through the Rust API
+        let mut s = brotli::enc::encode::BrotliEncoderStateStruct::new(alloc_stdlib::StandardAlloc::default());
+        s.set_parameter(P::BROTLI_PARAM_QUALITY, 5);
+        let mut ai = meta.len(); let mut io = 0usize; let mut ao = out.len(); let mut oo = 0usize; let mut to = Some(0usize);
+        let r = s.compress_stream(brotli::enc::encode::BrotliEncoderOperation::BROTLI_OPERATION_EMIT_METADATA, &mut ai, &meta, &mut io, &mut ao, &mut out, &mut oo, &mut to, &mut |_a, _b, _c, _d| ());
+        println!("D11 Rust API EMIT_METADATA: ret={} produced={} total_out={:?} state.total_out_={}", r, oo, to, s.total_out_);
+    }
+}
+
 pub fn run_cmd(args: &Args) {
+    if args.rest.get(0).map(|s| s.as_str()) == Some("probe") { probe(); std::process::exit(0); }
     let corr = Corr::new(&args.out);
     let rep = Report::default();
     corr.finish();
